@@ -192,7 +192,8 @@ def body_cli(case, rec):
     asm = conv.mk_assembly("x", case["scaffolds"], header=case["header"])
     agp = fmt(asm, "agp")
     # the format is taken from the file extension, in any letter case (CURATED.TPF, in.Agp)
-    ext = {"lower": ("agp", "tpf"), "UPPER": ("AGP", "TPF"), "Mixed": ("Agp", "tPF")}[case.get("ext", "lower")]
+    # (an unrecognised input extension means AGP, as the help text says)
+    ext = {"lower": ("agp", "tpf"), "UPPER": ("AGP", "TPF"), "Mixed": ("Agp", "tPF"), "unknown": ("agp.bak", "tpf")}[case.get("ext", "lower")]
     d = remap.scratch_dir("vf-c05-")
     try:
         (d / f"in.{ext[0]}").write_text(agp)
@@ -200,10 +201,11 @@ def body_cli(case, rec):
         if r1.exit_code != 0:
             raise Violation(f"asm-format AGP->TPF (in.{ext[0]} -o mid.{ext[1]}) failed: {r1.exception!r}")
         mid = (d / f"mid.{ext[1]}").read_text()
-        r2 = remap.run_cli_inprocess([d / f"mid.{ext[1]}", "-o", d / f"back.{ext[0]}"], script="asm_format")
+        back_ext = "agp" if ext[0] == "agp.bak" else ext[0]
+        r2 = remap.run_cli_inprocess([d / f"mid.{ext[1]}", "-o", d / f"back.{back_ext}"], script="asm_format")
         if r2.exit_code != 0:
-            raise Violation(f"asm-format TPF->AGP (mid.{ext[1]} -o back.{ext[0]}) failed: {r2.exception!r}")
-        back = (d / f"back.{ext[0]}").read_text()
+            raise Violation(f"asm-format TPF->AGP (mid.{ext[1]} -o back.{back_ext}) failed: {r2.exception!r}")
+        back = (d / f"back.{back_ext}").read_text()
     finally:
         remap.rmtree(d)
     want = fmt(conv.mk_assembly("x", norm(case["scaffolds"], with_tags=False), header=case["header"]), "agp")
@@ -540,7 +542,7 @@ SUBS = [
         budget={"quick": 8000, "thorough": 150000}, desc="same through TPF (no tags; '?' strands raise or round-trip)"),
     Sub("huge", kind="enum", cases=huge_cases, body=body_huge,
         budget={"quick": 12, "thorough": 12}, desc="objects of 8 191 - 40 000 rows: AGP and TPF round trips, part numbers"),
-    Sub("cli", kind="hyp", strategy=lambda: st.builds(lambda c, k, e: dict(c, stdin=k == 0, ext=e), assembly_cases(tpf=True).filter(lambda c: all(r[0] == "G" or r[4] != 0 for _n, rows in c["scaffolds"] for r in rows)), st.integers(0, 7), st.sampled_from(["lower", "lower", "UPPER", "Mixed"])),
+    Sub("cli", kind="hyp", strategy=lambda: st.builds(lambda c, k, e: dict(c, stdin=k == 0, ext=e), assembly_cases(tpf=True).filter(lambda c: all(r[0] == "G" or r[4] != 0 for _n, rows in c["scaffolds"] for r in rows)), st.integers(0, 7), st.sampled_from(["lower", "lower", "UPPER", "Mixed", "unknown"])),
         body=body_cli, budget={"quick": 320, "thorough": 5000}, desc="asm-format AGP -> TPF -> AGP"),
     Sub("lines", kind="hyp", strategy=line_cases, body=body_lines,
         budget={"quick": 8000, "thorough": 150000}, desc="corrupted lines: error, or exactly one row per data line in the scaffold the line names"),
